@@ -643,8 +643,8 @@ def explore(prop, cfg, cases, binp, label, props_chk, out):
             rec["model_trace"] = ml
             out["violations"].append(rec)
             continue
-        if prop in ("C16", "C17", "C18") and any(f.startswith("unparsed:panic") for f in fl):
-            rec["what"] = "an operation panicked with a panic that is none of the documented ones: %s" % "; ".join(f for f in fl if f.startswith("unparsed"))
+        if undocumented_panic(prop, fl):
+            rec["what"] = "an operation panicked with a panic that is none of the documented ones: %s" % "; ".join(undocumented_panic(prop, fl))
             rec["checker"] = "undocumented-panic"
             rec["impl_trace"] = il
             rec["model_trace"] = ml
@@ -666,6 +666,16 @@ def explore(prop, cfg, cases, binp, label, props_chk, out):
             continue
         if len(out["samples"]) < 3 and (ov or bd):
             out["samples"].append(dict(case=gen_cases.fmt_case(c).splitlines(), trace=ml[:40]))
+
+
+def undocumented_panic(prop, fl):
+    """an operation of the crate panicked with a message that is none of the documented ones (the driver cannot parse
+    the event).  For C16-C18 any such panic contradicts the property; for C10 one raised by into_seq_iter does"""
+    if prop in ("C16", "C17", "C18"):
+        return [f for f in fl if f.startswith("unparsed:panic") or f.startswith("unparsed-final:panic")]
+    if prop == "C10":
+        return [f for f in fl if f.startswith("unparsed-final:panic")]
+    return []
 
 
 def random_search(prop, cfg, cases, binp, props_chk, out, label="impl-random"):
@@ -712,8 +722,8 @@ def random_search(prop, cfg, cases, binp, props_chk, out, label="impl-random"):
             rec["checker"] = "progress"
             rec["impl_trace"] = il
             out["violations"].append(rec)
-        elif prop in ("C16", "C17", "C18") and any(f.startswith("unparsed:panic") for f in fl):
-            rec["what"] = "an operation panicked with a panic that is none of the documented ones: %s" % "; ".join(f for f in fl if f.startswith("unparsed"))
+        elif undocumented_panic(prop, fl):
+            rec["what"] = "an operation panicked with a panic that is none of the documented ones: %s" % "; ".join(undocumented_panic(prop, fl))
             rec["checker"] = "undocumented-panic"
             rec["impl_trace"] = il
             out["violations"].append(rec)
@@ -804,7 +814,7 @@ def impl_dfs(prop, cfg, tiny, binp, props_chk, out, limit, label="impl-dfs"):
                     rec.update(what="a call did not return on the implementation (hang): %s" % "; ".join(fl), checker="progress", impl_trace=il)
                     out["violations"].append(rec)
                     continue
-                if prop in ("C16", "C17", "C18") and any(f.startswith("unparsed:panic") for f in fl):
+                if undocumented_panic(prop, fl):
                     rec.update(what="an operation panicked with a panic that is none of the documented ones: %s" % "; ".join(fl), checker="undocumented-panic", impl_trace=il)
                     out["violations"].append(rec)
                     continue
